@@ -522,9 +522,11 @@ package parse
 //@ define atQuote(t) = tokWF(t) && t.peekCount == 0 && nrecv(t.lex.items) >= 1 && chanitem(t.lex.items, nrecv(t.lex.items) - 1).typ == itemQuote
 //@ func (*Tree).errorf
 //@   requires t != nil && t.lex != nil
+//@   modifies t.Root
 //@   ensures false
 //@ func (*Tree).unexpected
 //@   requires t != nil && t.lex != nil
+//@   modifies t.Root
 //@   ensures false
 //@ func (*Tree).expect
 //@   requires tokWF(t)
